@@ -7,6 +7,8 @@
 From Coq Require Import List NArith Bool.
 From PG Require Import Model.VS Model.Term Model.Solver Model.Registry Proofs.VSLaws Proofs.SolverSem
   Proofs.SolverStore.
+From Coq Require Import ZArith.
+From PG Require Import Model.Instances Proofs.SolverExamples.
 
 Section C06.
   Context {VS Vr : Type} (O : VSOps VS Vr) (L : VSLawful O) (veqb : Vr -> Vr -> bool).
@@ -40,6 +42,25 @@ Section C06.
       merge_dependents O self other = Good (Some mi) -> ext_ok O L reg r rv mi.
   Proof. exact (merge_dependents_ok O L reg r rv). Qed.
 End C06.
+
+(* non-vacuity: two recorded runs over Range<Z> (one NoSolution with a learned incompatibility, one Ok after a
+   conflict and a backtrack) meet all hypotheses; their stores have 4 resp. 3 entries, all valid *)
+Example store_valid_nonvacuous :
+  (exists o st log, resolve zvs Z.eqb 100 0%N 2%Z tr1 = (o, st, log, 8) /\ length (store st) = 4
+     /\ forall id i, nth_error (store st) id = Some i -> Valid zvs reg1 0%N 2%Z (terms i))
+  /\ (exists o st log, resolve zvs Z.eqb 100 0%N 1%Z tr2 = (o, st, log, 13) /\ length (store st) = 3
+     /\ forall id i, nth_error (store st) id = Some i -> Valid zvs reg2 0%N 1%Z (terms i)).
+Proof.
+  split.
+  - assert (E : exists o st log, resolve zvs Z.eqb 100 0%N 2%Z tr1 = (o, st, log, 8) /\ length (store st) = 4)
+      by (vm_compute; do 3 eexists; split; reflexivity).
+    destruct E as (o & st & log & E & Hl). exists o, st, log. split; [exact E|split; [exact Hl|]].
+    exact (store_valid_invariant zvs zlaw Z.eqb reg1 0%N 2%Z reg1_wf zeqb_eq 100 tr1 o st log 8 tr1_wb E).
+  - assert (E : exists o st log, resolve zvs Z.eqb 100 0%N 1%Z tr2 = (o, st, log, 13) /\ length (store st) = 3)
+      by (vm_compute; do 3 eexists; split; reflexivity).
+    destruct E as (o & st & log & E & Hl). exists o, st, log. split; [exact E|split; [exact Hl|]].
+    exact (store_valid_invariant zvs zlaw Z.eqb reg2 0%N 1%Z reg2_wf zeqb_eq 100 tr2 o st log 13 tr2_wb E).
+Qed.
 
 Print Assumptions store_valid_invariant.
 Print Assumptions prior_cause_valid.
